@@ -63,7 +63,15 @@ pub async fn change_membership(
     app: Data<Arc<AppShareData>>,
     req: Json<HashSet<NodeId>>,
 ) -> actix_web::Result<impl Responder> {
+    let members: Vec<NodeId> = req.0.iter().cloned().collect();
     app.raft.change_membership(req.0).await.unwrap();
+    // The store keeps the membership that an applied ClientRequest::Members saved, not the
+    // ConfigChange log entries (see join_node). Without this entry the change is forgotten at
+    // the next restart, log conflict or snapshot install.
+    app.raft
+        .client_write(ClientWriteRequest::new(ClientRequest::Members(members)))
+        .await
+        .unwrap();
     Ok("{\"ok\":1}")
 }
 
